@@ -589,4 +589,192 @@ theorem nodupB_sound (l : List Nat) (h : nodupB l = true) : l.Nodup := by
     exact List.nodup_cons.2 ⟨h.1, ih h.2⟩
 
 
+/-! ## the linear-time duplicate check -/
+
+theorem testBit_orPow (l : List Nat) (k : Nat) : (orPow l).testBit k = decide (k ∈ l) := by
+  induction l with
+  | nil => simp [orPow]
+  | cons a t ih =>
+    simp only [orPow, Nat.testBit_or, ih, Nat.testBit_two_pow, List.mem_cons]
+    by_cases h : a = k
+    · simp [h]
+    · have : ¬ k = a := fun e => h e.symm
+      simp [h, this]
+
+theorem or_pow_of_set (a x : Nat) (h : x.testBit a = true) : 2 ^ a ||| x = x := by
+  apply Nat.eq_of_testBit_eq; intro k
+  simp only [Nat.testBit_or, Nat.testBit_two_pow]
+  by_cases hk : a = k
+  · subst hk; simp [h]
+  · simp [hk]
+
+theorem or_pow_of_clear (a x : Nat) (h : x.testBit a = false) : 2 ^ a ||| x = 2 ^ a + x := by
+  have hz : 2 ^ a &&& x = 0 := by
+    apply Nat.eq_of_testBit_eq; intro k
+    simp only [Nat.testBit_and, Nat.testBit_two_pow, Nat.zero_testBit]
+    by_cases hk : a = k
+    · subst hk; simp [h]
+    · simp [hk]
+  exact (Regs.add_eq_or_of_and_eq_zero _ _ hz).symm
+
+theorem orPow_le_sumPow (l : List Nat) : orPow l ≤ sumPow l := by
+  induction l with
+  | nil => simp [orPow, sumPow]
+  | cons a t ih =>
+    simp only [orPow, sumPow]
+    cases hb : (orPow t).testBit a with
+    | true => rw [or_pow_of_set a _ hb]; have := Nat.two_pow_pos a; omega
+    | false => rw [or_pow_of_clear a _ hb]; have := Nat.two_pow_pos a; omega
+
+theorem nodupFastB_sound (l : List Nat) (h : nodupFastB l = true) : l.Nodup := by
+  simp only [nodupFastB, beq_iff_eq] at h
+  induction l with
+  | nil => exact List.nodup_nil
+  | cons a t ih =>
+    simp only [sumPow, orPow] at h
+    have hle := orPow_le_sumPow t
+    by_cases ha : a ∈ t
+    · have hb : (orPow t).testBit a = true := by rw [testBit_orPow]; simpa using ha
+      rw [or_pow_of_set a _ hb] at h
+      have : 0 < 2 ^ a := Nat.two_pow_pos a
+      omega
+    · have hb : (orPow t).testBit a = false := by rw [testBit_orPow]; simpa using ha
+      rw [or_pow_of_clear a _ hb] at h
+      exact List.nodup_cons.2 ⟨ha, ih (by omega)⟩
+
+/-! ## segment parsers and option words -/
+
+/-- the value of register `i` in a pointwise-related pair of lists -/
+theorem rv_pick {P : RegL → Nat → Prop} : ∀ {rs : List RegL} {vs : Vals} {i : Nat} {r : RegL},
+    RV P rs vs → rs[i]? = some r → P r (vs.getD i 0) := by
+  intro rs vs i r h
+  induction h generalizing i with
+  | nil => intro hr; simp at hr
+  | @cons r0 v0 rs vs h0 _ ih =>
+    intro hr
+    cases i with
+    | zero => simp at hr; subst hr; simpa using h0
+    | succ j => simpa using ih (by simpa using hr)
+
+theorem tagCheck_ok (tag : Bytes) (ti : Nat) (l : Layout) (vals : Vals) (r : RegL) (hr : l.regs[ti]? = some r)
+    (ht : leEnc r.bytes (vals.getD ti 0) = tag) : tagCheck tag ti l vals = .ok vals := by
+  simp only [tagCheck, hr]
+  rw [if_pos ht]
+
+theorem swapPairs_take4 : ∀ (b : Bytes), 4 ≤ b.length → (swapPairs b).take 4 = swapPairs (b.take 4)
+  | a :: b :: c :: d :: rest, _ => by simp [swapPairs]
+  | [], h => by simp at h
+  | [_], h => by simp at h
+  | [_, _], h => by simp at h
+  | [_, _, _], h => by simp at h
+
+/-- registers that are visible 32-bit words at offsets 4·k, 4·(k+1), … -/
+def WordsFrom : Nat → List RegL → Prop
+  | _, [] => True
+  | k, r :: rs => r.off = 4 * k ∧ r.width = 32 ∧ r.cov = 32 ∧ r.hidden = false ∧ WordsFrom (k + 1) rs
+
+theorem owBytes_length (ws : List Nat) : (owBytes ws).length = 4 * ws.length := flatMap_leEnc_length ws
+
+theorem slice_owBytes (pre : List Nat) (w : Nat) (post : List Nat) :
+    slice (owBytes (pre ++ w :: post)) (4 * pre.length) 4 = leEnc 4 w := by
+  have hp : (List.flatMap (leEnc 4) pre).length = 4 * pre.length := owBytes_length pre
+  have hl : (leEnc 4 w).length = 4 := leEnc_length 4 w
+  simp only [owBytes, List.flatMap_append, List.flatMap_cons, slice]
+  rw [List.drop_left' hp, List.take_left' hl]
+
+theorem WordsFrom.visible : ∀ {k : Nat} {rs : List RegL}, WordsFrom k rs → ∀ r ∈ rs, r.hidden = false
+  | _, [], _ => by simp
+  | k, r :: rs, h => by
+    intro x hx
+    rcases List.mem_cons.1 hx with rfl | hx
+    · exact h.2.2.2.1
+    · exact WordsFrom.visible h.2.2.2.2 x hx
+
+/-- once the parsing has ended, nothing changes any more -/
+theorem parseAux_stopped : ∀ (rs : List RegL) (cur : Vals) (b : Bytes), (∀ r ∈ rs, r.hidden = false) →
+    parseAux rs cur b true = cur := by
+  intro rs
+  induction rs with
+  | nil => intro cur b _; cases cur <;> simp [parseAux]
+  | cons r rs ih =>
+    intro cur b h
+    cases cur with
+    | nil => simp [parseAux]
+    | cons c cs =>
+      simp [parseAux, h r (by simp), ih cs b (fun x hx => h x (by simp [hx]))]
+
+/-- parsing the bytes of `done ++ ws` into registers starting at word `done.length`: the registers that have a word get it,
+    the parsing ends at the first register without one and the rest keeps `cur` -/
+theorem parseAux_words : ∀ (rs : List RegL) (done ws cur : List Nat),
+    WordsFrom done.length rs → (∀ w ∈ ws, w < 2 ^ 32) → rs.length = cur.length →
+    parseAux rs cur (owBytes (done ++ ws)) false = ws.take rs.length ++ cur.drop (min ws.length rs.length) := by
+  intro rs
+  induction rs with
+  | nil => intro done ws cur _ _ hl; cases cur with | nil => simp [parseAux] | cons _ _ => simp at hl
+  | cons r rs ih =>
+    intro done ws cur hw hb hl
+    cases cur with
+    | nil => simp at hl
+    | cons c cs =>
+      have hvis := WordsFrom.visible hw
+      obtain ⟨ho, hwd, hcov, hh, hrest⟩ := hw
+      have hbytes : r.bytes = 4 := by simp [RegL.bytes, hwd]
+      have hstop : r.stop = 4 * done.length + 4 := by simp [RegL.stop, ho, hbytes]
+      simp only [parseAux, hh]
+      cases ws with
+      | nil =>
+        have hlen : (owBytes (done ++ [])).length < r.stop := by rw [owBytes_length]; simp; omega
+        simp only [Bool.false_eq_true, if_false, Bool.false_or, decide_eq_true_eq, hlen, if_true]
+        rw [parseAux_stopped rs cs _ (fun x hx => hvis x (by simp [hx]))]
+        simp
+      | cons w ws =>
+        have hlen : ¬ (owBytes (done ++ w :: ws)).length < r.stop := by
+          rw [owBytes_length]; simp; omega
+        have hw32 : w < 2 ^ 32 := hb w (by simp)
+        have hdec : leDec (slice (owBytes (done ++ w :: ws)) r.off r.bytes) % 2 ^ r.cov = w := by
+          rw [ho, hbytes, slice_owBytes, hcov, leDec_leEnc 4 w (by omega)]
+          exact Nat.mod_eq_of_lt hw32
+        simp only [Bool.false_eq_true, if_false, Bool.false_or, decide_eq_true_eq, hlen, hdec]
+        have e : done ++ w :: ws = (done ++ [w]) ++ ws := by simp
+        rw [e, ih (done ++ [w]) ws cs (by simpa using hrest) (fun x hx => hb x (by simp [hx])) (by simpa using hl)]
+        simp [Nat.succ_min_succ]
+
+theorem owCount_congr (rule fi ud : Nat) (l : Layout) (vals vals' : Vals) (h : vals.getD 0 0 = vals'.getD 0 0) :
+    owCount [rule, 0, fi, ud] l vals = owCount [rule, 0, fi, ud] l vals' := by
+  simp only [owCount, h]
+
+theorem owCount_pos (rule fi ud : Nat) (l : Layout) (vals : Vals) (n : Nat) (hne : l.regs ≠ [])
+    (h : owCount [rule, 0, fi, ud] l vals = .ok n) : 1 ≤ n := by
+  have hL : 1 ≤ l.regs.length := by cases hr : l.regs with | nil => exact absurd hr hne | cons _ _ => simp
+  simp only [owCount] at h
+  split at h
+  · cases h; exact hL
+  · split at h
+    · cases h
+    · split at h
+      · cases h
+      · split at h
+        · cases h; omega
+        · split at h
+          · cases h; split <;> omega
+          · cases h
+
+theorem stateOK_words : ∀ {rs : List RegL} {vs : Vals} {k : Nat}, WordsFrom k rs → RV (fun r v => v < 2 ^ r.width) rs vs →
+    ∀ w ∈ vs, w < 2 ^ 32 := by
+  intro rs vs k hw h
+  induction h generalizing k with
+  | nil => simp
+  | @cons r v rs vs hv _ ih =>
+    intro w hwm
+    rcases List.mem_cons.1 hwm with rfl | hwm
+    · rw [hw.2.1] at hv; exact hv
+    · exact ih hw.2.2.2.2 w hwm
+
+theorem wordsFromB_sound : ∀ (k : Nat) (rs : List RegL), wordsFromB k rs = true → WordsFrom k rs
+  | _, [], _ => trivial
+  | k, r :: rs, h => by
+    simp only [wordsFromB, Bool.and_eq_true, beq_iff_eq, Bool.not_eq_true'] at h
+    exact ⟨h.1.1.1.1, h.1.1.1.2, h.1.1.2, h.1.2, wordsFromB_sound (k + 1) rs h.2⟩
+
+
 end SpsdkVerif.CfgArea
